@@ -9,7 +9,7 @@ import (
 // Skeleton programs for dependency / fork shapes that the purely random
 // generator reaches rarely.  Types and literal values are still random.
 
-const NTemplates = 20
+const NTemplates = 21
 
 // NFileTemplates file-passing skeletons follow the NTemplates dataflow ones.
 const NFileTemplates = 11
@@ -590,6 +590,25 @@ func Template(kind int, seed int64, cfg *Config) *Program {
 			},
 			Ret: []Binding{{Id: "xas", Exp: ref("MKGRID", "grid", "a")}, {Id: "bs", Exp: ref("MKGRID", "cube", "b")}, {Id: "ms", Exp: ref("MKGRID", "mg", "a")}, {Id: "ias", Exp: ref("INNERG", "xas")}}}
 		p.Pipelines = []*Pipeline{inner, top}
+	case 20:
+		// map calls over the keys of a run-time typed map: taken whole
+		// (MAKE.vals) and through a member projection of a map of structs
+		// (MAKE.items.value); the forks are keyed and ordered by the map's keys
+		p.Structs = append(p.Structs, &Struct{Name: "ITEM", Fields: []Param{{Name: "value", Type: TInt}, {Name: "name", Type: TString}}})
+		item := &Type{Kind: KStruct, Name: "ITEM"}
+		mk := src(&Stage{Name: "MAKE", Ins: []Param{{Name: "seed", Type: TInt}}, Outs: []Param{{Name: "items", Type: TMapOf(item)}, {Name: "vals", Type: TMapOf(TInt)}}})
+		work := src(&Stage{Name: "WORK", Ins: []Param{{Name: "x", Type: TInt}}, Outs: []Param{{Name: "y", Type: TInt}}})
+		seem := src(&Stage{Name: "SEEM", Ins: []Param{{Name: "a", Type: TMapOf(TInt)}, {Name: "b", Type: TMapOf(TInt)}}, Outs: []Param{{Name: "n", Type: TInt}}})
+		p.Stages = []*Stage{mk, work, seem}
+		top := &Pipeline{Name: "TOP", Outs: []Param{{Name: "proj", Type: TMapOf(TInt)}, {Name: "plain", Type: TMapOf(TInt)}, {Name: "n", Type: TInt}},
+			Calls: []*Call{
+				{Callee: "MAKE", Binds: []Binding{{Id: "seed", Exp: lit(s1)}}},
+				{Callee: "WORK", Alias: "WORK_PROJ", Map: true, Binds: []Binding{{Id: "x", Exp: ref("MAKE", "items", "value"), Split: true}}},
+				{Callee: "WORK", Alias: "WORK_PLAIN", Map: true, Binds: []Binding{{Id: "x", Exp: ref("MAKE", "vals"), Split: true}}},
+				{Callee: "SEEM", Binds: []Binding{{Id: "a", Exp: ref("WORK_PROJ", "y")}, {Id: "b", Exp: ref("WORK_PLAIN", "y")}}},
+			},
+			Ret: []Binding{{Id: "proj", Exp: ref("WORK_PROJ", "y")}, {Id: "plain", Exp: ref("WORK_PLAIN", "y")}, {Id: "n", Exp: ref("SEEM", "n")}}}
+		p.Pipelines = []*Pipeline{top}
 	default:
 		fk := kind - NTemplates // file-passing skeleton number
 		// file-passing skeletons: a stage mapped over a run-time sized
